@@ -112,7 +112,15 @@ impl<TR: ToTokens> FnDelegationCodegen<'_, TR> {
         let opt_self_comma = match (deps, entrait_sig.sig.inputs.first(), &self.impl_indirection) {
             (generics::FnDeps::NoDeps { .. }, _, _) | (_, None, _) => None,
             (_, _, ImplIndirection::Static { .. } | ImplIndirection::Dynamic { .. }) => None,
-            (_, Some(_), _) => Some(SelfArgComma(&self.impl_indirection, span)),
+            (_, Some(first_input), _) => {
+                // The receiver and its use in the body have to agree on their span: `self`
+                // is subject to macro hygiene when the function comes out of a `macro_rules!`.
+                let self_span = match first_input {
+                    syn::FnArg::Receiver(receiver) => receiver.self_token.span,
+                    syn::FnArg::Typed(_) => span,
+                };
+                Some(SelfArgComma(&self.impl_indirection, self_span))
+            }
         };
 
         let arguments = entrait_sig
